@@ -498,6 +498,213 @@ def hashlib_digest(name, msg, outlen=None, key=()):
         return None
 
 
+# ---------------------------------------------------------------- one-step (mid-stream) forms of the mode rules
+#
+# The same padding / chaining / counter rules as above, written as transition functions over the
+# ABSTRACT streaming state of each construction, so that "state after the bytes seen so far, plus
+# some more bytes" can be compared with the real code started from an arbitrary context
+# (props/C17_step.py).  Abstract states:
+#   SHA-2    (h, pend, n)   h = H(i) after all complete blocks, pend = the n mod block bytes not yet
+#                           compressed, n = number of message bytes so far
+#   BLAKE2s  (h, pend, t)   pend = bytes not yet compressed; a complete block stays pending because
+#                           it may be the last one (RFC 7693 3.3: the final block is compressed with
+#                           the flag set); t = bytes so far (key block included); |pend| = 0 when
+#                           t = 0, else ((t-1) mod 64)+1
+#   sponge   (S, p)         S = state with p < rate bytes of the current block already XORed in;
+#                           while squeezing, p <= rate output bytes of S are already delivered
+# n / t may be ints or terms (64 bits; 128 for the SHA-512 family).  By construction
+#   step_update(step_update(s, a), b) == step_update(s, a || b)   and
+#   step_final(step_update(init, m)) == digest(m);
+# `selftest_step` checks the second equation (over random splits) against hashlib on every run.
+
+def _cadd(x, c, w):
+    return T.t_add(x, c & ((1 << w) - 1), w) if isinstance(x, T.Term) else (x + c) & ((1 << w) - 1)
+
+
+def sha2_step_update(w, h, pend, n, data, compress=None):
+    """FIPS 180-4 6.2.2/6.4.2 chaining applied to pend || data.  Returns (h', pend', n')."""
+    compress = compress or sha2_compress
+    blk = 2 * w
+    assert len(pend) < blk
+    buf = list(pend) + list(data)
+    h = list(h)
+    while len(buf) >= blk:
+        h = compress(w, h, buf[:blk])
+        buf = buf[blk:]
+    return h, buf, _cadd(n, len(data), 4 * w)
+
+
+def sha2_step_final(name, h, pend, n, compress=None):
+    """FIPS 180-4 5.1 padding for a message of n bytes whose last |pend| bytes are pending, then
+    the remaining one or two compressions and the truncation of 6.x.  n: int or term of 64 bits
+    (SHA-224/256) / 128 bits (SHA-384/512 family); the length field is the 64/128-bit big-endian
+    value 8*n (n < 2^61 / 2^125 is the standard's domain)."""
+    compress = compress or sha2_compress
+    w, _, dl = SHA2[name]
+    blk, lenb = 2 * w, w // 4
+    assert len(pend) < blk
+    if isinstance(n, T.Term):
+        assert n.w == 8 * lenb
+        L = T.t_shl(n, 3, 8 * lenb)
+    else:
+        assert n % blk == len(pend)
+        L = (8 * n) & ((1 << (8 * lenb)) - 1)
+    k = (-(len(pend) + 1 + lenb)) % blk
+    data = list(pend) + [0x80] + [0] * k + word_bytes_be(L, 8 * lenb)
+    assert len(data) in (blk, 2 * blk)
+    h = list(h)
+    for i in range(0, len(data), blk):
+        h = compress(w, h, data[i:i + blk])
+    out = []
+    for x in h:
+        out += word_bytes_be(x, w)
+    return out[:dl]
+
+
+def blake2s_init(outlen, key=()):
+    """RFC 7693 3.3 initialisation as an abstract state (h, pend, t)"""
+    kk = len(key)
+    h = list(BLAKE2S_IV)
+    h[0] = h[0] ^ 0x01010000 ^ (kk << 8) ^ outlen
+    if kk:
+        return h, list(key) + [0] * (64 - kk), 64
+    return h, [], 0
+
+
+def blake2s_pending(t):
+    """number of pending bytes of a BLAKE2s stream that has seen t bytes"""
+    return 0 if t == 0 else ((t - 1) % 64) + 1
+
+
+def blake2s_step_update(h, pend, t, data, F=None):
+    """all blocks of pend || data except the last (possibly complete) one are compressed with
+    the offset counter = number of bytes up to and including that block, flag clear"""
+    F = F or blake2s_F
+    assert len(pend) <= 64
+    buf = list(pend) + list(data)
+    h = list(h)
+    done = _cadd(t, -len(pend), 64)          # bytes already compressed
+    off = 0
+    while len(buf) - off > 64:
+        off += 64
+        h = F(h, buf[off - 64:off], _cadd(done, off, 64), 0)
+    return h, buf[off:], _cadd(t, len(data), 64)
+
+
+def blake2s_step_final(h, pend, t, outlen, F=None):
+    """the pending bytes, zero-padded, are the last block: counter = total byte count, flag set"""
+    F = F or blake2s_F
+    assert len(pend) <= 64
+    h = F(list(h), list(pend) + [0] * (64 - len(pend)), t, 1)
+    out = []
+    for x in h:
+        out += word_bytes_le(x, 32)
+    return out[:outlen]
+
+
+def _xor_byte(S, p, b):
+    S[p >> 3] = T.t_xor(S[p >> 3], T.t_shl(T.t_zext(b, 64), 8 * (p & 7), 64), 64)
+
+
+def sponge_step_absorb(rate, S, p, data, f=None):
+    """FIPS 202 algorithm 8 step 6, one byte at a time, from a partially absorbed block"""
+    f = f or keccak_f
+    assert 0 <= p < rate
+    S = list(S)
+    for b in data:
+        _xor_byte(S, p, b)
+        p += 1
+        if p == rate:
+            S = f(S)
+            p = 0
+    return S, p
+
+
+def sponge_step_pad(rate, suffix, S, p):
+    """suffix bits and pad10*1 XORed into the current block (before the permutation)"""
+    assert 0 <= p < rate
+    S = list(S)
+    _xor_byte(S, p, suffix)
+    _xor_byte(S, rate - 1, 0x80)
+    return S
+
+
+def sponge_step_squeeze(rate, S, p, n, f=None):
+    """n more output bytes from a squeezing state that already delivered p <= rate bytes of S"""
+    f = f or keccak_f
+    assert 0 <= p <= rate
+    S = list(S)
+    out = []
+    for _ in range(n):
+        if p == rate:
+            S = f(S)
+            p = 0
+        out.append(T.t_extract(S[p >> 3], 8 * (p & 7), 8) if isinstance(S[p >> 3], T.Term) else (S[p >> 3] >> (8 * (p & 7))) & 0xFF)
+        p += 1
+    return out, S, p
+
+
+def selftest_step():
+    """the one-step forms, chained over random splits from the initial state, against hashlib;
+    returns the number of comparisons"""
+    import random
+    r = random.Random(20261003)
+    n = 0
+
+    def splits(L):
+        cuts = sorted(r.randint(0, L) for _ in range(r.randint(0, 4)))
+        return [b - a for a, b in zip([0] + cuts, cuts + [L])]
+    for name in SHA2:
+        w = SHA2[name][0]
+        for L in (0, 1, 2 * w - 1, 2 * w, 3 * w + 5, 4 * w, 4 * w + 1, 9 * w + 3):
+            m = [r.getrandbits(8) for _ in range(L)]
+            hl = hashlib_digest(name, m)
+            if hl is None:
+                continue
+            h, pend, cnt, pos = list(sha2_iv(name)), [], 0, 0
+            for c in splits(L):
+                h, pend, cnt = sha2_step_update(w, h, pend, cnt, m[pos:pos + c])
+                pos += c
+            assert cnt == L and sha2_step_final(name, h, pend, cnt) == hl, (name, L)
+            n += 1
+    for L in (0, 1, 63, 64, 65, 128, 129, 300):
+        for kl in (0, 7, 32):
+            for ol in (1, 20, 32):
+                m = [r.getrandbits(8) for _ in range(L)]
+                k = [r.getrandbits(8) for _ in range(kl)]
+                h, pend, t = blake2s_init(ol, k)
+                pos = 0
+                for c in splits(L):
+                    h, pend, t = blake2s_step_update(h, pend, t, m[pos:pos + c])
+                    assert len(pend) == blake2s_pending(t)
+                    pos += c
+                assert blake2s_step_final(h, pend, t, ol) == hashlib_digest("blake2s", m, ol, k), (L, kl, ol)
+                n += 1
+    # the counter really is 64 bits: a block compressed across 2^32 carries into the high word
+    h0 = [r.getrandbits(32) for _ in range(8)]
+    blk = [r.getrandbits(8) for _ in range(64)]
+    h1, p1, t1 = blake2s_step_update(h0, blk, 0xFFFFFFC0 + 64, [1])
+    assert t1 == 0x100000001 and p1 == [1] and h1 == blake2s_F(h0, blk, 0x100000000, 0)
+    n += 1
+    for name in SHA3:
+        rate, suffix, dl = SHA3[name]
+        for L in (0, 1, rate - 1, rate, rate + 1, 2 * rate + 7):
+            m = [r.getrandbits(8) for _ in range(L)]
+            S, p, pos = [0] * 25, 0, 0
+            for c in splits(L):
+                S, p = sponge_step_absorb(rate, S, p, m[pos:pos + c])
+                pos += c
+            S = sponge_step_pad(rate, suffix, S, p)
+            ol = dl if dl is not None else rate + 40
+            p2, got = rate, []
+            for c in splits(ol):
+                o, S, p2 = sponge_step_squeeze(rate, S, p2, c)
+                got += o
+            assert got == hashlib_digest(name, m, ol), (name, L)
+            n += 1
+    return n
+
+
 def selftest():
     """the transcriptions on ints against hashlib and the standards' own
     examples; returns the number of comparisons.  Raises AssertionError."""
